@@ -956,6 +956,65 @@ def _quick_modes(si):
     return (si % 2,)
 
 
+def part_transaction(_):
+    """makeTransaction (send a packet, hand out the next packet of its function) used on a function that already has
+    packets queued, or whose queue exists: nothing queued earlier is lost, order is kept, the request goes out once."""
+    from cflib.cpx import CPXFunction, CPXPacket, CPXTarget
+    p = Partial()
+    with _quiet(), _Env(hook_queue=True) as env:
+        for seq in ('aa', 'aca', 'caa', 'aXa', 'a', 'ao'):
+            for pre_receive in (True, False):
+                pkts = _router_packets(seq)
+                stream = b''.join(ref_frame(*pk) for pk in pkts)
+                net = env.net
+                cpx = env.new_cpx()
+                router = cpx._router
+                rp = {'part': 'transaction', 'seq': seq, 'pre': pre_receive}
+                if pre_receive:
+                    # the receivers exist (their queues are created by a first, empty receive) before the packets arrive
+                    for s_ in set(seq) - {'X'}:
+                        try:
+                            cpx.receivePacket(CPXFunction(_SYM_FN[s_]), timeout=0)
+                        except _rq.Empty:
+                            pass
+                net.load(stream, [len(stream)])
+                try:
+                    router.run()
+                except _Exhausted:
+                    pass
+                except Exception as e:  # noqa
+                    p.violation('transaction:router_died', 'router died with %r' % (e,), rp)
+                    continue
+                expected = [j for j, s_ in enumerate(seq) if s_ == 'a'] if pre_receive else []
+                del net.sent[:]
+                req = CPXPacket(function=CPXFunction(5), destination=CPXTarget.GAP8, data=bytes([0x77, 0x01]))
+                got = []
+                try:
+                    r = cpx.makeTransaction(req)
+                    got.append(_fields(r)[4][0])
+                except _Deadlock:
+                    got.append('blocks')
+                except Exception as e:  # noqa
+                    got.append(repr(e))
+                for _ in range(len(seq)):
+                    try:
+                        r = cpx.receivePacket(CPXFunction(5), timeout=0)
+                        got.append(_fields(r)[4][0])
+                    except _rq.Empty:
+                        break
+                want = expected if expected else ['blocks']
+                p.case(key=('transaction', seq, pre_receive), outcome=(seq, pre_receive, tuple(map(str, got))))
+                p.transitions += 1 + len(got)
+                if got != want:
+                    p.violation('transaction:queued_packets', 'packets %s (receivers %s before they arrived), then makeTransaction '
+                                'on function APP: handed out %r, expected %r' % (
+                                    seq, 'existed' if pre_receive else 'did not exist', got, want), rp)
+                sent = bytes(net.sent)
+                if sent.count(bytes([0x77, 0x01])) != 1:
+                    p.violation('transaction:request_on_wire', 'makeTransaction put %s on the wire' % sent.hex(), rp)
+    return p
+
+
 # ---------------------------------------------------------------------------------------------------
 # part: CRTP tunnelled through CPX (TcpDriver / SerialDriver)
 # ---------------------------------------------------------------------------------------------------
@@ -1487,6 +1546,7 @@ def _router_jobs(quick):
         chunk = seqs[i:i + per]
         jobs.append(('router', (chunk, gmax, modes, any(s == 'cXac' for _, s in chunk))))
     jobs.sort(key=lambda j: not j[1][3])
+    jobs.append(('transaction', None))
     return jobs, lmax, gmax
 
 
